@@ -89,6 +89,9 @@ def gen_histories(ctx):
             hist.append(("data", ["USER bob", "EPSV", "@data", r, t, "@data", "RETR f.txt"]))
             for mid in ("PWD", "NOOP", "RETR missing", "STOR nodir/x", "TYPE I", "", "REST abc", "MLST f.txt"):
                 hist.append(("data", ["USER bob", "EPSV", "@data", r, mid, t, "@data", "RETR f.txt"]))
+            for mid in ("LIST", "MLSD", "LIST d", "MLSD d"):
+                # a listing consumes the data connection; the listener stays, so a new one can be made without EPSV
+                hist.append(("data", ["USER bob", "EPSV", "@data", r, mid, "@data", t, "@data", "RETR f.txt"]))
     rng = ctx.rng
     for _ in range(ctx.pick(250, 3000)):
         n = rng.randint(3, 30)
@@ -147,6 +150,23 @@ def oracle(cmds, snaps):
         elif first == "rest" and finals and finals[0] // 100 not in (3, 5):
             sig = "C05:rest-reply"
             what = "REST answered %r" % codes
+        elif first == "user" and finals and finals[0] in (230, 331):
+            login = c.strip().partition(" ")[2]
+            cand = None
+            for u in S.USERS_ANON:
+                if u.login is None and cand is None:
+                    cand = u
+                elif u.login == login:
+                    cand = u
+                    break
+            home = "/" + "/".join(x for x in (cand.home if cand else "/").split("/") if x)
+            import framework as _F
+
+            parts = snap["cwd"].split(":", 1)[1]
+            got = "/" if parts == "~" else "/" + "/".join(_F.dec_str(x) for x in parts.split("|"))
+            if got != home:
+                sig = "C05:relogin-keeps-cwd"
+                what = "after %r (%r) the working directory is %r, not the home directory %r of that user" % (c, codes, got, home)
         if sig is None and first == "retr" and finals == [226] and prev is not None:
             # restart offset applies only to the immediately following transfer
             pass
@@ -159,9 +179,11 @@ def oracle(cmds, snaps):
 
 
 def restart_scope_oracle(cmds, snaps):
-    """REST n applies only to the immediately following transfer command: checked on RETR output"""
+    """REST n applies only to the immediately following transfer command: checked on RETR output.
+    The signature names what stood between the REST and the RETR that still used its offset."""
     fails = []
-    pending = None  # offset set by the immediately preceding command
+    offset = None  # last offset accepted by REST and not yet followed by any command
+    stale = None  # (offset, [verbs since]) : an offset that should be dead by now
     for idx, (c, snap) in enumerate(zip(["@connect"] + cmds, snaps)):
         if snap is None:
             break
@@ -173,24 +195,38 @@ def restart_scope_oracle(cmds, snaps):
             x.split(" ")[0].upper() in ("STOR", "APPE", "DELE", "RNTO", "RNFR", "RMD") for x in cmds[:idx]
         ):
             content = b"0123456789"
-            want = content[pending:] if pending else content
+            want = content[offset:] if offset else content
             got = bytes.fromhex(snap["out"]) if snap["out"] != "-" else b""
-            if got != want and got in (content[3:], content[100:], content):
+            if got != want and stale is not None and got == content[stale[0] :]:
+                between = sorted(set(stale[1]))
+                if all(v in ("retr", "stor", "appe", "unknown-verb") for v in between):
+                    cls = "transfer-or-unknown-verb"
+                else:
+                    cls = "+".join(v for v in between if v not in ("retr", "stor", "appe", "unknown-verb"))
                 fails.append(
                     {
                         "input": {"commands": cmds, "at": idx},
-                        "what": "RETR delivered %r, want %r: a restart offset outlived the command that followed REST" % (got, want),
-                        "signature": "C05:restart-offset-outlives-next-command",
+                        "what": "RETR delivered %r, want %r: the offset of an earlier REST outlived %r" % (got, want, stale[1]),
+                        "signature": "C05:restart-offset-outlives:" + cls,
                     }
                 )
                 break
+            elif got != want:
+                fails.append({"input": {"commands": cmds, "at": idx}, "what": "RETR delivered %r, want %r" % (got, want), "signature": "C05:retr-wrong-bytes"})
+                break
+        vclass = first if first in KNOWN_VERBS else "unknown-verb"
         if first == "rest" and arg.isdigit() and snap["replies"] == "350":
             try:
-                pending = int(arg)
+                offset = int(arg)
+                stale = None
             except ValueError:
-                pending = None
+                offset = None
         else:
-            pending = None
+            if offset:
+                stale = (offset, [vclass])
+            elif stale is not None:
+                stale = (stale[0], stale[1] + [vclass])
+            offset = None
     return fails
 
 
